@@ -84,6 +84,14 @@ CLAIMS = {
             "fail-safe decompressor gives the same result for any short-read schedule of its source (one-pass induction); chunk loads "
             "consume exactly min(remaining, chunk+tag).",
             CONTRACT_NOTE + "std write_all / read_to_end / io::copy are trusted to loop over partial transfers. Not decided: end-to-end archive equality."),
+    "C20": ("§5 C20",
+            "Solver-decided with Kani's pointer checks on: every C entry point called with each pointer argument NULL, with missing "
+            "callbacks, and with handle slots that hold NULL (handles the interface cleared on release) returns BadAPIArgument without "
+            "dereferencing anything and without consuming the configuration; the callback-backed Write/Read adapters return exactly the "
+            "count the callback reported and map a non-zero status to an error.",
+            "Harness module appended to the real bindings/C/src/lib.rs; the mla dependency is the overlay copy (model crates for "
+            "aes/ctr/ghash/brotli). Not decided: archives produced or extracted through the C API (PEM parsing, RNG, HashMap-based linear "
+            "extraction)."),
     "C14": ("§5 C14",
             "Solver-decided: when its input ends the fail-safe decompressor first delivers everything the decoder still holds (no Ok(0)/Err "
             "with pending output), and flush of the position layer reaches the inner writer.",
